@@ -18,7 +18,7 @@ func init() {
 		"C15-immutable (written only by the constructor or before the object is published to another goroutine), C15-guarded (every access outside the constructor holds the field's mutex on the same object in the must-held lock set; reads may hold it in read mode; unlocked reads are accepted only in the single function that performs all writes, i.e. on the writing goroutine), " +
 		"C15-confined (fields touched only by the connection goroutine, by C13-inline including Request.StartTLS), C15-precondition (Mux tables and Server.router are only written by the registration methods; 'routes registered before Run'), " +
 		"C15-waitgroup (Add/Done/Wait pairing and ordering of requestsWg and connWg), C15-copylocks (no by-value copy of a struct holding a mutex), C15-foreign-config (gldap writes fields only of tls.Configs it built or cloned itself), C15-capture (no go closure captures a variable that is assigned again after the spawn), C15-classified (no unclassified field). " +
-		"Does not decide races in user handlers or anything that contradicts the stated confinement assumption."
+		"C15-alias (a mutex-guarded slice field whose elements are written in place - index store, copy, append onto a re-slice - never has its backing array returned by a getter or handed to a callee that keeps it). Does not decide races in user handlers or anything that contradicts the stated confinement assumption."
 }
 
 type fieldClass struct {
@@ -513,6 +513,68 @@ func checkC15(c *Ctx) {
 			R.OK("C15-classified", name+" (not in the table)", pos, sprintf("every access after construction (%d) holds %s.%s", len(as), u.typ, guard))
 			continue
 		}
+		// a field of conn used only by the connection's own goroutine (the read loop and what it calls synchronously):
+		// every function that touches it is reached only through synchronous calls from the function the accept loop
+		// starts with `go` once per connection - never from a per-request goroutine, another goroutine or the exported API
+		if u.typ == "conn" && m.connFn != nil {
+			callers := map[*ssa.Function][]*ssa.Function{}
+			goTargets := map[*ssa.Function]bool{}
+			for _, f := range fns {
+				for _, g := range syncCallees(f) {
+					callers[g] = append(callers[g], f)
+				}
+				for _, ci := range an.Calls(f) {
+					if isGo(ci) {
+						if g := an.StaticCallee(ci.Common()); g != nil {
+							goTargets[g] = true
+						}
+					}
+				}
+			}
+			confined, why := true, ""
+			seen := map[*ssa.Function]bool{}
+			var up func(f *ssa.Function)
+			up = func(f *ssa.Function) {
+				if seen[f] || !confined {
+					return
+				}
+				seen[f] = true
+				if f == m.connFn {
+					return
+				}
+				switch {
+				case goTargets[f]:
+					confined, why = false, fname(f)+" runs on a goroutine of its own"
+					return
+				case f.Parent() == nil && token.IsExported(f.Name()):
+					confined, why = false, fname(f)+" is part of the exported API"
+					return
+				case len(callers[f]) == 0 && f.Parent() != nil:
+					// a closure nobody calls directly: deferred / called through a value in its parent
+					up(f.Parent())
+					return
+				case len(callers[f]) == 0:
+					confined, why = false, "no caller of "+fname(f)+" is known"
+					return
+				}
+				for _, g := range callers[f] {
+					up(g)
+				}
+			}
+			nAcc := 0
+			for _, a := range as {
+				if isCtor(a) {
+					continue
+				}
+				nAcc++
+				up(a.fn)
+			}
+			if confined && nAcc > 0 {
+				R.OK("C15-classified", name+" (not in the table)", pos, sprintf("every access after construction (%d) is made by the connection's own goroutine: the functions that touch it are reached only synchronously from the per-connection goroutine", nAcc))
+				continue
+			}
+			_ = why
+		}
 		R.Unknown("C15-classified", name, pos, "field is not in the concurrency classification table and is neither a sync type, nor written only during construction, nor accessed only under one mutex of the struct: cannot show its accesses are race-free")
 	}
 	var keys []key
@@ -631,6 +693,12 @@ func checkC15(c *Ctx) {
 	}
 	R.Floor("C15-guarded", 4)
 	R.Floor("C15-immutable", 4)
+
+	// ---- C15-alias: the lock guards the slice header stored in a field, not the backing array: when elements of a
+	// guarded slice field are written in place (a store through an index, copy into it, append onto a re-slice of it),
+	// the array must not be reachable from outside the lock - returned by a getter, or handed to a function that keeps
+	// it (a response's SetControls, encoded after the handler has released the lock).
+	c.checkSliceAlias(fns, c15Table, pkgOf)
 
 	// ---- C15-waitgroup: reuse the pairing / ordering rules
 	for _, sub := range []func(*Ctx){checkC08, checkC12} {
@@ -779,4 +847,191 @@ func insideGoClosureBelow(f, stop *ssa.Function) bool {
 		}
 	}
 	return false
+}
+
+// checkSliceAlias: see C15-alias in checkC15.
+func (c *Ctx) checkSliceAlias(fns []*ssa.Function, table map[string]map[string]fieldClass, pkgOf map[string]string) {
+	R := c.R
+	type key struct{ typ, fld string }
+	// derivedFrom: v is (a re-slice / conversion / phi of) a load of the field
+	var derived func(v ssa.Value, k key, d int) bool
+	derived = func(v ssa.Value, k key, d int) bool {
+		if v == nil || d > 6 {
+			return false
+		}
+		switch x := v.(type) {
+		case *ssa.UnOp:
+			if x.Op == token.MUL {
+				if fa, ok := x.X.(*ssa.FieldAddr); ok {
+					if st := an.StructOf(fa.X.Type()); st != nil && st.Obj().Name() == k.typ && st.Obj().Pkg() != nil && st.Obj().Pkg().Path() == pkgOf[k.typ] && an.FieldAddrName(fa) == k.fld {
+						return true
+					}
+				}
+			}
+		case *ssa.Slice:
+			return derived(x.X, k, d+1)
+		case *ssa.ChangeType:
+			return derived(x.X, k, d+1)
+		case *ssa.Phi:
+			for _, e := range x.Edges {
+				if derived(e, k, d+1) {
+					return true
+				}
+			}
+		}
+		return false
+	}
+	// retains: g keeps its parameter pi (stores it, returns it, captures it in a closure / goroutine)
+	retains := func(g *ssa.Function, pi int) bool {
+		if g == nil || len(g.Blocks) == 0 || pi >= len(g.Params) {
+			return true // not analysable: assume it may
+		}
+		p := ssa.Value(g.Params[pi])
+		var flows func(v ssa.Value, d int) bool
+		flows = func(v ssa.Value, d int) bool {
+			if v == nil || d > 6 {
+				return false
+			}
+			if v == p {
+				return true
+			}
+			switch x := v.(type) {
+			case *ssa.Slice:
+				return flows(x.X, d+1)
+			case *ssa.ChangeType:
+				return flows(x.X, d+1)
+			case *ssa.MakeInterface:
+				return flows(x.X, d+1)
+			case *ssa.Phi:
+				for _, e := range x.Edges {
+					if flows(e, d+1) {
+						return true
+					}
+				}
+			}
+			return false
+		}
+		keep := false
+		an.Instrs(g, func(in ssa.Instruction) {
+			switch x := in.(type) {
+			case *ssa.Store:
+				if flows(x.Val, 0) {
+					if _, local := an.Strip(x.Addr).(*ssa.Alloc); !local || an.Strip(x.Addr).(*ssa.Alloc).Heap {
+						keep = true
+					}
+				}
+			case *ssa.Return:
+				for _, r := range an.ReturnResults(x) {
+					if flows(r, 0) {
+						keep = true
+					}
+				}
+			case *ssa.MakeClosure:
+				for _, b := range x.Bindings {
+					if flows(b, 0) {
+						keep = true
+					}
+				}
+			case *ssa.Go:
+				for _, a := range x.Common().Args {
+					if flows(a, 0) {
+						keep = true
+					}
+				}
+			case *ssa.Send:
+				if flows(x.X, 0) {
+					keep = true
+				}
+			}
+		})
+		return keep
+	}
+	var keys []key
+	for typ, fields := range table {
+		nt := c.P.NamedType(pkgOf[typ], typ)
+		if nt == nil {
+			continue
+		}
+		stt, ok := nt.Underlying().(*types.Struct)
+		if !ok {
+			continue
+		}
+		for i := 0; i < stt.NumFields(); i++ {
+			f := stt.Field(i)
+			fc, listed := fields[f.Name()]
+			if _, isSlice := f.Type().Underlying().(*types.Slice); isSlice && listed && (fc.class == "guarded" || fc.class == "precondition") {
+				keys = append(keys, key{typ, f.Name()})
+			}
+		}
+	}
+	sort.Slice(keys, func(i, j int) bool { return keys[i].typ+keys[i].fld < keys[j].typ+keys[j].fld })
+	n := 0
+	for _, k := range keys {
+		name := k.typ + "." + k.fld
+		var writes, escapes []string
+		for _, f := range fns {
+			an.Instrs(f, func(in ssa.Instruction) {
+				switch x := in.(type) {
+				case *ssa.Store:
+					if ia, ok := x.Addr.(*ssa.IndexAddr); ok && derived(ia.X, k, 0) {
+						writes = append(writes, "element store at "+c.pos(x))
+					}
+				case *ssa.Return:
+					for _, r := range an.ReturnResults(x) {
+						if derived(r, k, 0) {
+							escapes = append(escapes, "returned by "+fname(f)+" at "+c.pos(x))
+						}
+					}
+				case ssa.CallInstruction:
+					cc := x.Common()
+					if b, ok := cc.Value.(*ssa.Builtin); ok {
+						switch b.Name() {
+						case "append":
+							if sl, isSl := cc.Args[0].(*ssa.Slice); isSl && derived(sl, k, 0) {
+								writes = append(writes, "append onto a re-slice of the field at "+c.pos(x))
+							}
+						case "copy":
+							if derived(cc.Args[0], k, 0) {
+								writes = append(writes, "copy into the field at "+c.pos(x))
+							}
+						}
+						return
+					}
+					g := an.StaticCallee(cc)
+					args := cc.Args
+					for ai, a := range args {
+						if !derived(a, k, 0) {
+							continue
+						}
+						pi := ai
+						if g != nil && an.InModule(g) && !retains(g, pi) {
+							continue
+						}
+						if g != nil && !an.InModule(g) {
+							continue // library helpers (fmt, sort, slices ...) do not keep their arguments
+						}
+						what := "a dynamic call"
+						if g != nil {
+							what = fname(g)
+						}
+						escapes = append(escapes, "handed to "+what+", which keeps it, at "+c.pos(x))
+					}
+				}
+			})
+		}
+		n++
+		key := name + ": backing array is not written in place while reachable from outside the lock"
+		pos := c.P.Pos(c.P.NamedType(pkgOf[k.typ], k.typ).Obj().Pos())
+		switch {
+		case len(writes) == 0:
+			R.OK("C15-alias", key, pos, sprintf("never written in place (replaced wholesale or appended to); %d place(s) hand the array out", len(escapes)))
+		case len(escapes) == 0:
+			R.OK("C15-alias", key, pos, sprintf("written in place at %d site(s), but the array never leaves the lock: getters return copies", len(writes)))
+		default:
+			sort.Strings(writes)
+			sort.Strings(escapes)
+			R.Fail("C15-alias", key, pos, name+" is written in place ("+writes[0]+") and its backing array is reachable without the lock ("+escapes[0]+"): the reader of the handed-out slice races with that write although every access to the field itself holds the mutex")
+		}
+	}
+	R.Count("C15-alias/fields", n)
 }
